@@ -4,14 +4,29 @@ import json, os, subprocess, sys
 HERE = os.path.dirname(os.path.dirname(os.path.abspath(__file__)))
 pid = sys.argv[1]; n = int(sys.argv[2]) if len(sys.argv) > 2 else 2
 p = next(json.loads(l) for l in open(os.path.join(HERE, "properties.jsonl")) if json.loads(l)["id"] == pid)
-wt = f"/tmp/seed-{pid}"; out = f"/tmp/seedout-{pid}"
+rnd = os.environ.get("ROUND", "")
+wt = f"/tmp/seed-{pid}"; out = f"/tmp/seedout{rnd}-{pid}"
 if not os.path.isdir(wt):
     subprocess.run(["git", "-C", "/repo", "worktree", "add", "-q", "--detach", wt, "HEAD"], check=True)
     subprocess.run(["cp", "-r", "/repo/data/lib/pkgcore/ebd/.generated", f"{wt}/data/lib/pkgcore/ebd/.generated"])
+else:
+    head = subprocess.run(["git", "-C", "/repo", "rev-parse", "HEAD"], capture_output=True, text=True).stdout.strip()
+    subprocess.run(["git", "-C", wt, "checkout", "-q", "--detach", head])
+    subprocess.run(["git", "-C", wt, "checkout", "-q", "--", "."])
 os.makedirs(out, exist_ok=True)
 t = open(os.path.join(HERE, "tools", "seed_brief.md")).read()
 for k, v in {"{WT}": wt, "{OUT}": out, "{N}": str(n), "{PID}": pid, "{TITLE}": p["title"], "{STATEMENT}": p["statement"],
              "{QUANT}": ", ".join(p["quantifier"]["over"]) + " — " + p["quantifier"]["text"],
              "{FILES}": ", ".join(p["anchors"]["files"])}.items():
     t = t.replace(k, v)
+if rnd:
+    import glob
+    used = []
+    for m in sorted(glob.glob(os.path.join(HERE, "seeded", f"{pid}-m*", "meta.json"))):
+        try:
+            d = json.load(open(m)); used.append("- " + " ".join((d.get("summary") or "").split())[:400])
+        except Exception:
+            pass
+    if used:
+        t += "\n\nIdeas ALREADY USED for this property by an earlier round (do NOT repeat them or close variants; pick different functions / mechanisms):\n" + "\n".join(used) + "\n"
 print(t)
